@@ -159,6 +159,7 @@ def _not_contains(pat, what):
     def chk(ctx, hfn):
         hits = find(ctx, hfn['body'], pat)
         return not hits, '' if not hits else what, hits[0][0].get('ln') if hits else None
+    chk.negative = True
     return chk
 
 
@@ -175,7 +176,11 @@ def _const(path, v):
 ROWS = []
 
 
-def row(prop, fn, label, check):
+def row(prop, fn, label, check, keep=()):
+    """keep: crate-local functions the row's pattern is about (their calls are not dissolved when the
+    row is retried on the function with its helper calls inlined)"""
+    if keep:
+        check.keep = tuple(keep)
     ROWS.append(Row(prop, fn, label, check))
 
 
@@ -259,6 +264,7 @@ def _bg_precedence(variant):
                     return False, ('a video event sets the background file without the file having a non-video '
                                    'extension (negated VIDEO_EXTENSIONS test)'), ln
         return True, '', asg[0][1]
+    chk.positive = True
     return chk
 
 
@@ -282,6 +288,7 @@ def _video_extensions(ctx, hfn):
 
 for _v in ('Background', 'Sprite', 'Video'):
     row('C11', EVENTS, 'background-precedence:' + _v, _bg_precedence(_v))
+_video_extensions.positive = True
 row('C11', EVENTS, 'video-extension-list', _video_extensions)
 EDITOR = '<section::editor::Editor as decode::DecodeBeatmap>::parse_editor'
 SKIPPING = {'filter_map', 'flat_map', 'flatten', 'filter'}
@@ -506,12 +513,13 @@ def _version_line_table(ctx, hfn):
                               'line, no prefix and not blank -> unknown format' % got), None
 
 
+_version_line_table.positive = True
 row('C05', TVL, 'version-line-decisions', _version_line_table)
 row('C05', TVL, 'number-after-last-v', _contains(M('rsplit', L('line'), K('v')), 'the version number is what follows the last `v`'))
 row('C05', 'decode::DecodeBeatmap::decode', 'default-version',
-    _contains(M('unwrap_or', L('version'), K(14)), 'a missing/unreadable version means the latest version'))
+    _contains(M('unwrap_or', ANY(), K(14)), 'a missing/unreadable version means the latest version'))
 row('C05', 'decode::parse_first_section', 'failed-version-line-may-open-a-section',
-    _contains(IF(L('use_curr_line'), CONTAINS(C('try_from_line', M('curr_line', ANY())))),
+    _contains(IF(ANY(), CONTAINS(C('try_from_line', M('curr_line', ANY())))),
               'the failed version line itself is tested as a section header'))
 
 
@@ -545,12 +553,19 @@ def _version_table(ctx, hfn):
         return None
 
     def visit(n, anc):
-        if n.get('k') != 'tup' or len(n['es']) != 2:
+        if n.get('k') == 'tup' and len(n['es']) == 2:
+            pair = n['es']
+        elif n.get('k') == 'struct' and len(n.get('fields', [])) == 2:
+            # a private struct bundling (version, flag)
+            pair = [f['e'] for f in n['fields']]
+            if flag_of(pair[0]) is not None and flag_of(pair[1]) is None:
+                pair = [pair[1], pair[0]]
+        else:
             return
-        flag = flag_of(n['es'][1])
+        flag = flag_of(pair[1])
         if flag is None:
             return
-        ver = strip(n['es'][0])
+        ver = strip(pair[0])
         vk = 'None' if ver.get('k') == 'path' and ver.get('name') == 'None' else (
             'Some' if ver.get('k') == 'call' and ver['f'].get('name') == 'Some' else '?')
         outcome = 'end-of-input'
@@ -569,6 +584,7 @@ def _version_table(ctx, hfn):
                               'failed version line -> (None, re-examine this line), end of input -> (None, -)' % got), None
 
 
+_version_table.positive = True
 row('C05', 'decode::parse_version', 'version-outcomes', _version_table)
 row('C05', 'decode::parse_version', 'blank-lines-before-version',
     _contains(C('try_version_from_line', L('line')), 'every line up to the version decision goes through try_version_from_line'))
@@ -716,9 +732,24 @@ row('C15', HO_FROM, 'velocity',
                                   C('get_precision_adjusted_beat_len', L('slider_velocity'), L('beat_len'), ANY())),
                 base='slider'))
 row('C15', HO_FROM, 'leniency:object',
-    _contains(CALLARG('sample_point', BIN('Add', L('end_time'), K(5.0))), 'object samples looked up 5 ms after the end'))
-row('C15', HO_FROM, 'leniency:nodes',
-    _let('time', BIN('Add', ANY(), K(5.0))))
+    _contains(CALLARG('sample_point', BIN('Add', OR(M('end_time_with_bufs', ANY(), ANY()), M('end_time', ANY())), K(5.0))),
+              'object samples looked up 5 ms after the end (for every kind of object)'),
+    keep=('end_time_with_bufs', 'end_time', 'sample_point_at'))
+def _all_sample_lookups_lenient(ctx, hfn):
+    """every sample-point lookup of the conversion (object and slider nodes) is made 5 ms late"""
+    calls = find(ctx, hfn['body'], M('sample_point_at', ANY(), ANY()))
+    if len(calls) < 2:
+        return False, 'expected the object and the node sample-point lookups, found %d' % len(calls), None
+    for n, _anc in calls:
+        arg = strip(n)['args'][0]
+        ctx.env = {}
+        if not BIN('Add', ANY(), K(5.0)).m(ctx, arg):
+            return False, 'a sample point is looked up without the 5 ms leniency', strip(n).get('ln')
+    return True, '', strip(calls[0][0]).get('ln')
+
+
+_all_sample_lookups_lenient.positive = True
+row('C15', HO_FROM, 'leniency:nodes', _all_sample_lookups_lenient, keep=('sample_point_at',))
 row('C15', HO_FROM, 'default-beat-len',
     _let('beat_len', M('map_or', M('timing_point_at', ANY(), F(L('h'), 'start_time')), K(1000.0), ANY())))
 row('C15', HO_FROM, 'default-slider-velocity',
@@ -803,6 +834,19 @@ def _break_forces_combo(ctx, hfn):
                         problems.append(('only some of the passed breaks force a new combo (the guard uses %s)'
                                          % ', '.join(sorted(set(bad))), a.get('ln')))
     H.walk(hfn['body'], v2)
+    # every object is visited: the list of hit objects is not split, offset or filtered
+    objs = H.pat_bindings(hfn['params'][0])[0] if hfn.get('params') else None
+
+    def v3(n, anc):
+        if n.get('k') == 'mcall' and n.get('name') in ('split_first_mut', 'split_first', 'split_last_mut', 'split_at_mut', 'skip',
+                                                       'take', 'step_by', 'filter', 'skip_while', 'take_while', 'chunks_mut'):
+            cur = n
+            while isinstance(cur, dict) and cur.get('k') == 'mcall':
+                cur = strip(cur['recv'])
+            if isinstance(cur, dict) and cur.get('k') == 'local' and cur.get('name') == objs:
+                problems.append(('not every hit object is visited (`%s` on the object list): an object that follows a break '
+                                 'may not get its new combo' % n['name'], n.get('ln')))
+    H.walk(hfn['body'], v3)
     if problems:
         return False, problems[0][0], problems[0][1]
     return True, '', None
@@ -1010,7 +1054,7 @@ row('C20', GENT, 'tick:time',
 row('C20', GENT, 'tick:progress', _struct_init(EVENT + 'SliderEvent', 'path_progress', L('path_progress')))
 row('C20', GENT, 'tick:span', _struct_init(EVENT + 'SliderEvent', 'span_idx', L('span')))
 row('C20', REPT, 'repeat:time',
-    _struct_init(EVENT + 'SliderEvent', 'time', BIN('Add', L('span_start_time'), L('span_duration'))))
+    _struct_init(EVENT + 'SliderEvent', 'time', BIN('Add', L('span_start_time'), OR(L('span_duration'), F(ANY(), 'span_duration')))))
 row('C20', REPT, 'repeat:progress',
     _struct_init(EVENT + 'SliderEvent', 'path_progress', FROM(BIN('Rem', BIN('Add', L('span'), K(1)), K(2)))))
 row('C20', REPT, 'repeat:span', _struct_init(EVENT + 'SliderEvent', 'span_idx', L('span')))
@@ -1063,6 +1107,23 @@ def run(facts, out, props=None):
                 if ok2:
                     ok, why, ln = True, '', None
                     break
+            if not ok:
+                # ... or spread over a pipeline of helpers: look at the function with its crate-local calls inlined
+                # (one level first: deeper inlining also dissolves the helper calls a row may be about)
+                for dpt in (1, 2, 3):
+                    vh = H.inlined_fn(facts, hfn, depth=dpt, keep=getattr(r.check, 'keep', ()))
+                    c3 = Ctx(facts, H.binding_inits(vh), vh)
+                    ok3, _w3, ln3 = r.check(c3, vh)
+                    if ok3:
+                        ok, why, ln = True, '', None
+                        break
+        elif ok and getattr(r.check, 'negative', False):
+            # a forbidden construct must not hide in a helper either
+            vh = H.inlined_fn(facts, hfn, depth=2)
+            c3 = Ctx(facts, H.binding_inits(vh), vh)
+            ok3, w3, ln3 = r.check(c3, vh)
+            if not ok3:
+                ok, why, ln = False, w3, None
         b = facts.body(r.fn)
         file = b.file if b else 'src'
         out.add(rule, r.fn, r.label, '%s:%s' % (file, ln if ln else (b.line if b else 0)), ok, why, ordinal=False)
